@@ -188,10 +188,31 @@ func (m *KDEModel) baseMass(a, b float64) float64 {
 	return s.val() / m.W
 }
 
+// finite reports whether the model's parameters and the argument are usable:
+// every loop below is entered only with finite limits, so a non-finite
+// bandwidth, boundary width or argument yields NaN instead of a loop that
+// cannot end.
+func (m *KDEModel) finite(x float64) bool {
+	if math.IsNaN(x) || math.IsInf(x, 0) || math.IsNaN(m.H) || math.IsInf(m.H, 0) || !(m.W > 0) || math.IsInf(m.W, 0) {
+		return false
+	}
+	if m.Kernel != KDelta && !(m.H > 0) {
+		return false
+	}
+	if math.IsNaN(m.Min) || math.IsNaN(m.Max) || math.IsInf(m.Min, 1) || math.IsInf(m.Max, -1) {
+		return false
+	}
+	return true
+}
+
 // PDF is the (folded) density at x; 0 outside [Min,Max). Not defined for the
-// delta kernel (NaN).
+// delta kernel (NaN). For the Gaussian kernel the value is accurate to
+// rounding relative to itself (not only relative to the peak) wherever it is
+// above the underflow range: every term is positive, and the image sum is
+// extended to 39 bandwidths (exp(-39^2/2) = 0 in float64) when the 12
+// bandwidth sum is small enough for the dropped images to matter.
 func (m *KDEModel) PDF(x float64) float64 {
-	if m.Kernel == KDelta {
+	if m.Kernel == KDelta || !m.finite(x) {
 		return math.NaN()
 	}
 	lo, up := m.Bounded()
@@ -207,7 +228,23 @@ func (m *KDEModel) PDF(x float64) float64 {
 		return m.BasePDF(x) + m.BasePDF(2*m.Max-x)
 	}
 	d := 2 * (m.Max - m.Min)
-	R := m.reach()
+	if !(d > 0) || math.IsInf(d, 0) {
+		return math.NaN()
+	}
+	v := m.pdfBoth(x, d, m.reach())
+	if m.Kernel == KGaussian {
+		// images dropped beyond 12 bandwidths: two families, both sides,
+		// spacing d: below 4 phi(12)/h (1 + h/(12 d)) < 1e-30/h max(1,h/d)
+		dropped := 1e-30 / m.H * math.Max(1, m.H/d)
+		if v < 1e10*dropped {
+			v = m.pdfBoth(x, d, 39*m.H)
+		}
+	}
+	return v
+}
+
+// pdfBoth is the doubly-bounded image sum with kernels cut at distance R.
+func (m *KDEModel) pdfBoth(x, d, R float64) float64 {
 	var s ksum
 	for i, xi := range m.Xs {
 		var si ksum
@@ -215,7 +252,7 @@ func (m *KDEModel) PDF(x float64) float64 {
 			// images img + k d with |img + k d - xi| <= R
 			k0 := math.Ceil((xi - R - img) / d)
 			k1 := math.Floor((xi + R - img) / d)
-			if k1-k0 > maxImages {
+			if math.IsNaN(k0) || math.IsNaN(k1) || math.IsInf(k0, 0) || math.IsInf(k1, 0) || k1-k0 > maxImages {
 				return math.NaN()
 			}
 			for k := k0; k <= k1; k++ {
@@ -231,6 +268,9 @@ func (m *KDEModel) PDF(x float64) float64 {
 // For the delta kernel it is the weighted empirical distribution function
 // (right-continuous) inside the support.
 func (m *KDEModel) CDF(x float64) float64 {
+	if !m.finite(x) {
+		return math.NaN()
+	}
 	lo, up := m.Bounded()
 	if lo && x <= m.Min {
 		return 0
@@ -252,13 +292,16 @@ func (m *KDEModel) CDF(x float64) float64 {
 		return 1 - m.baseMass(x, 2*m.Max-x)
 	}
 	d := 2 * (m.Max - m.Min)
+	if !(d > 0) || math.IsInf(d, 0) {
+		return math.NaN()
+	}
 	R := m.reach()
 	a0 := 2*m.Min - x // windows [a0 + k d, x + k d]
 	var s ksum
 	for i, xi := range m.Xs {
 		k0 := math.Ceil((xi - R - x) / d)
 		k1 := math.Floor((xi + R - a0) / d)
-		if k1-k0 > maxImages {
+		if math.IsNaN(k0) || math.IsNaN(k1) || math.IsInf(k0, 0) || math.IsInf(k1, 0) || k1-k0 > maxImages {
 			return math.NaN()
 		}
 		var si ksum
@@ -316,6 +359,16 @@ func (m *KDEModel) DeltaWindow(x, delta float64) (lo, hi float64, jump bool) {
 		lo = 1
 	}
 	return
+}
+
+// NearSample reports whether a sample value lies in [x-delta,x+delta].
+func (m *KDEModel) NearSample(x, delta float64) bool {
+	for _, xi := range m.Xs {
+		if xi >= x-delta && xi <= x+delta {
+			return true
+		}
+	}
+	return false
 }
 
 // DataRange returns the smallest and largest sample value.
@@ -384,6 +437,9 @@ func (m *KDEModel) Kinks() []float64 {
 func (m *KDEModel) Integrate(f func(float64) float64, a, b float64, kinks []float64) float64 {
 	if !(b > a) {
 		return 0
+	}
+	if math.IsInf(a, 0) || math.IsInf(b, 0) || !(m.H > 0) || math.IsInf(m.H, 0) {
+		return math.NaN()
 	}
 	pts := []float64{a}
 	for _, k := range kinks {
@@ -493,6 +549,32 @@ func KDESelfTest() error {
 	}
 	if got := hn.CDF(1); !near(got, 0.6826894921370859, 1e-15) {
 		return fmt.Errorf("half-normal CDF(1)=%v", got)
+	}
+	// Gaussian tails with two boundaries: one sample at 0, h=1, support
+	// [-1,40): at x the images that matter are x and -2-x
+	tb := NewKDEModel([]float64{0}, nil, KGaussian, 1, -1, 40)
+	for _, x := range []float64{9, 13.5, 30, 36} {
+		want := F64(Add(NormPDFz(NF(x)), NormPDFz(NF(-2-x))))
+		if got := tb.PDF(x); !near(got, want, 1e-12*want) || !(got > 0) {
+			return fmt.Errorf("two-boundary gaussian tail PDF(%v)=%v want %v", x, got, want)
+		}
+	}
+	// non-finite parameters or arguments end in NaN, never in a loop
+	for _, bad := range []*KDEModel{
+		NewKDEModel([]float64{0, 1}, nil, KGaussian, math.NaN(), 0, 1),
+		NewKDEModel([]float64{0, 1}, nil, KGaussian, inf, 0, 1),
+		NewKDEModel([]float64{0, 1}, nil, KGaussian, 0, 0, 1),
+		NewKDEModel([]float64{0, 1}, nil, KEpanechnikov, 1, math.NaN(), 1),
+	} {
+		if v := bad.PDF(0.5); !math.IsNaN(v) {
+			return fmt.Errorf("model PDF with non-finite parameters: %v", v)
+		}
+		if v := bad.CDF(0.25); !math.IsNaN(v) {
+			return fmt.Errorf("model CDF with non-finite parameters: %v", v)
+		}
+	}
+	if v := g.PDF(math.NaN()); !math.IsNaN(v) {
+		return fmt.Errorf("model PDF(NaN)=%v", v)
 	}
 	// Epanechnikov, one sample at 0, h=1, support [-1/2,1/2]: at x in
 	// [0,1/2] the density is 3/4(1-x^2) + 3/4(1-(1-x)^2)
